@@ -156,7 +156,17 @@ def header_branch(ctx):
     for e in G.callees(run_):
         if e.target in two:
             fa = fm.facts_at(e.call) or frozenset()
-            if ('T', 'self.is_2d') in fa:
+            via_local = isinstance(e.call.func, ast.Name) and e.call.func.id != e.target.name
+            if via_local:
+                # the resolver is chosen into a local first: on every path where the local denotes the 2D resolver the
+                # file is 2D
+                paths = fm.paths_at(e.call) or []
+                sel = [p_ for p_ in paths if any(a[0] == 'def' and a[1] == e.call.func.id and a[2].split('.')[-1] == e.target.name
+                                                 for a in p_)]
+                ok2d = bool(sel) and all(('T', 'self.is_2d') in p_ for p_ in sel)
+            else:
+                ok2d = ('T', 'self.is_2d') in fa
+            if ok2d:
                 ctx.ok('C09.3', run_, e.call, '2D geometry -> 2D resolver')
             else:
                 ctx.fail('C09.3', run_, enclosing_stmt(e.call), 'the 2D resolver is not confined to the is_2d branch')
